@@ -78,6 +78,18 @@ def conc(model, v, depth=0):
         k = num(model, v.term)
         if isinstance(k, int) and 0 <= k < len(StrVal.TABLE):
             return StrVal.TABLE[k]
+        # an unknown string whose lower-case form is a known constant: a
+        # differently capitalised spelling of that constant
+        try:
+            from .nplib import STR_LOWER
+            lk = num(model, STR_LOWER(v.term))
+            if isinstance(lk, int) and 0 <= lk < len(StrVal.TABLE):
+                c = StrVal.TABLE[lk]
+                for cand in (c.upper(), c.capitalize(), c.title()):
+                    if cand != c and cand.lower() == c:
+                        return cand
+        except Exception:                               # noqa: BLE001
+            pass
         return f"<str#{k}>"
     if isinstance(v, Obj):
         return {"__obj__": v.cls,
